@@ -410,6 +410,32 @@ fn main() {
         t
     });
 
+    // S3c: inexact quotients whose integer part is 10^k - d (all nines / next to a power of ten) for every
+    // length k: the digit count of the first integer quotient decides how many more digits are produced
+    let kmax: u64 = tier.pick(130, 400);
+    run.bound("S3c_integer_quotient_lengths", format!("1..={}", kmax));
+    run.par("S3c integer quotients next to powers of ten", kmax as usize, |ki| {
+        let k = ki as u64 + 1;
+        let mut t = Tally::default();
+        let p10 = pow10(k);
+        for d in [0i64, 1, 2, 7] {
+            for b in [3i64, 7, 11, 999_983] {
+                for r in [1i64, 2] {
+                    if r >= b {
+                        continue;
+                    }
+                    // a = (10^k - d) * b + r : integer quotient 10^k - d, remainder r
+                    let a = (&p10 - d) * b + r;
+                    t.states += 1;
+                    t.nontrivial += 4;
+                    check_dec(&run, &Dec { n: a.clone(), s: 0 }, &Dec::new(b, 0), &forms, &mut t);
+                    check_dec(&run, &Dec { n: -a, s: 9 }, &Dec::new(b, 4), &forms, &mut t);
+                }
+            }
+        }
+        t
+    });
+
     // S3b: remainders next to den/2 at the rounding position, with long numerator tails:
     // a = (q*den + r)*10^k + t,  r in {floor(den/2), floor(den/2)+1},  t around 10^k/2
     let mut s3b: Vec<(Dec, Dec)> = vec![];
